@@ -1,7 +1,36 @@
-// C07: the header a sealed state commits to, as a function of the abstract state (hand-written)
-pub uninterp spec fn spec_header<C: ContentAddrStore>(s: UnsealedState<C>) -> Header;
-/// the state a sealing produces (melmint settlement, TIP-909 subsidy, proposer action); defined in the seal unit, opaque elsewhere
-pub uninterp spec fn spec_seal<C: ContentAddrStore>(s: UnsealedState<C>, a: Option<ProposerAction>) -> UnsealedState<C>;
+// C07: the header a sealed state commits to, as a function of the abstract state (hand-written from the property statement).
+// Roots are uninterpreted functions of the CONTENTS (A-SMT: history independence) and injective (A-SMT/A-HASH: collision freedom).
+pub uninterp spec fn spec_root_smt<K, V>(m: Map<K, V>) -> HashVal;
+pub uninterp spec fn spec_root_coins(v: CoinsView) -> HashVal;
+pub uninterp spec fn spec_root_txs(m: Map<TxHash, Transaction>, tip908: bool) -> HashVal;
+pub uninterp spec fn spec_root_stakes(m: Map<TxHash, StakeDoc>) -> HashVal;
+pub broadcast axiom fn axiom_root_smt_inj<K, V>(a: Map<K, V>, b: Map<K, V>) requires #[trigger] spec_root_smt(a) == #[trigger] spec_root_smt(b) ensures a == b;
+pub broadcast axiom fn axiom_root_coins_inj(a: CoinsView, b: CoinsView) requires #[trigger] spec_root_coins(a) == #[trigger] spec_root_coins(b) ensures a.coins == b.coins, a.counts == b.counts;
+pub broadcast axiom fn axiom_root_txs_inj(a: Map<TxHash, Transaction>, b: Map<TxHash, Transaction>, t: bool) requires #[trigger] spec_root_txs(a, t) == #[trigger] spec_root_txs(b, t) ensures a.dom() == b.dom();
+pub broadcast axiom fn axiom_root_stakes_inj(a: Map<TxHash, StakeDoc>, b: Map<TxHash, StakeDoc>) requires #[trigger] spec_root_stakes(a) == #[trigger] spec_root_stakes(b) ensures a == b;
+pub open spec fn spec_tip908<C: ContentAddrStore>(s: UnsealedState<C>) -> bool { spec_tip(s.network, s.height, u64::MAX) || s.network == NetID::Custom08 }
+pub open spec fn spec_header<C: ContentAddrStore>(s: UnsealedState<C>) -> Header {
+    Header {
+        network: s.network,
+        previous: if s.height.0 == 0 { spec_zero_hash() } else { spec_header_hash(s.history@[BlockHeight((s.height.0 - 1) as u64)]) },
+        height: s.height,
+        history_hash: spec_root_smt(s.history@),
+        coins_hash: spec_root_coins(s.coins@),
+        transactions_hash: spec_root_txs(s.transactions@, spec_tip908(s)),
+        fee_pool: s.fee_pool,
+        fee_multiplier: s.fee_multiplier,
+        dosc_speed: s.dosc_speed,
+        pools_hash: spec_root_smt(s.pools@),
+        stakes_hash: spec_root_stakes(s.stakes@),
+    }
+}
+/// chain invariant: the history tree holds exactly the headers of the heights below the current one, each at its height,
+/// each linked to its parent by hash, all on this network
+pub open spec fn chain_ok<C: ContentAddrStore>(s: UnsealedState<C>) -> bool {
+    &&& forall|h: BlockHeight| #[trigger] s.history@.contains_key(h) <==> h.0 < s.height.0
+    &&& forall|h: BlockHeight| #[trigger] s.history@.contains_key(h) ==> s.history@[h].height == h && s.history@[h].network == s.network
+            && (h.0 > 0 ==> s.history@[h].previous == spec_header_hash(s.history@[BlockHeight((h.0 - 1) as u64)]))
+}
 /// "the previous block's header" as a covenant sees it: the header stored at height-1, or (only at height 0) the header this
 /// very state would seal to without a proposer action
 pub open spec fn spec_last_header<C: ContentAddrStore>(s: UnsealedState<C>) -> Header {
